@@ -338,6 +338,8 @@ def conventional_query(qs):
 def oracle_match(uri, regs, native):
     """Does the property allow the user agent to be sent to `uri`?  Returns (allowed, reasons)."""
     reasons = []
+    if not regs:
+        reasons.append("nothing-registered")
     dec = UP.unquote(uri)
     if any(ord(ch) < 0x20 or ord(ch) == 0x7F for ch in dec) or dec != dec.lstrip(" ") or any(ch in uri for ch in "\t\r\n"):
         reasons.append("ctl")
@@ -396,16 +398,14 @@ def oracle_match(uri, regs, native):
                 reasons.append("str-query-dropped")
             continue
         matched = True
-    if not regs:
-        reasons.append("nothing-registered")
-    elif not matched and not reasons:
+    if regs and not matched and not reasons:
         reasons.append("mismatch")
     return (matched and not reasons), reasons
 
 
 def sig_of(reasons):
-    for r, s in (("ctl", "ctl-char-stripped"), ("fragment", "empty-fragment-accepted"), ("blank-query", "blank-query-param-ignored"),
-                 ("str-query-dropped", "string-registration-query-dropped"), ("nothing-registered", "oauth2-nothing-registered"),
+    for r, s in (("nothing-registered", "oauth2-nothing-registered"), ("ctl", "ctl-char-stripped"), ("fragment", "empty-fragment-accepted"), ("blank-query", "blank-query-param-ignored"),
+                 ("str-query-dropped", "string-registration-query-dropped"),
                  ("malformed", "malformed-accepted")):
         if r in reasons:
             return s
@@ -917,7 +917,16 @@ class Logout:
         rec = {"kind": "end_session", "config": name, "mutation": label, "uri": uri, "state": state, "other_client": other_client}
         loc = None
         try:
-            p = self.sess.parse_request(dict(req), http_info={"cookie": [cookie]})
+            try:
+                p = self.sess.parse_request(dict(req), http_info={"cookie": [cookie]})
+            except KeyError as e:
+                # Session.parse_request cannot handle an unauthenticated request (KeyError 'token' after
+                # client_authentication returned method 'none'); do what it does next: build and verify the request
+                if e.args != ("token",):
+                    raise
+                from idpyoidc.message.oidc.session import EndSessionRequest
+                p = EndSessionRequest(**req)
+                p.verify(keyjar=self.sess.upstream_get("attribute", "keyjar"), sigalg="")
             res = self.sess.process_request(p, http_info={"cookie": [cookie]})
             loc = res.get("redirect_location")
             rec["out"] = "redirect"
